@@ -3,7 +3,8 @@
 From Coq Require Import List ZArith Bool.
 From Coq.Strings Require Import Byte.
 Import ListNotations.
-From SV Require Import Text G_tab C11_Model C11_Lemmas C11_TextLemmas C11_FileLemmas C11_Examples C11_IntLemmas C11_RenderLemmas.
+From SV Require Import Text G_tab C11_Model C11_Lemmas C11_TextLemmas C11_FileLemmas C11_Examples C11_IntLemmas C11_RenderLemmas
+  C11_SelectLemmas C11_BlocksLemmas C11_Examples2.
 Local Open Scope Z_scope.
 
 (* P0 orientation: the decision of core.py:313-335 is the sign rule; in particular every accepted row spans
@@ -284,6 +285,119 @@ Theorem C11_read_infernal1_hits : forall sep outfmt ftype ruler pre post rows xs
 Proof. exact read_infernal1_hits. Qed.
 Print Assumptions C11_read_infernal1_hits.
 
+(* ---- depth round 2: arbitrary column selections, all Infernal tables, several '# Fields:' blocks, sep=None ----
+   hit_row d free hs h = the row of hit h under the header list hs: the eight columns _CONVERTH names carry the hit
+   (coordinates in decimal), a strand column carries the sign, every other column is a free token.
+   sel_ok d hs = distinct names, every column from the dialect's table with its declared type, the eight required columns
+   present. hits_ok = with a strand column the hit has a direction, and the pident/fident completion does not raise. *)
+
+(* the general rows-carry lemma: under ANY accepted selection the rendered row carries its hit *)
+Theorem C11_hit_row_carries : forall d free hs h, sel_ok d hs = true -> hit_sel_ok hs h = true ->
+  ident_ok (row_attrs hs (hit_row d free hs h)) = true -> row_carries d hs (hit_row d free hs h) h.
+Proof. exact hit_row_carries. Qed.
+Print Assumptions C11_hit_row_carries.
+
+(* completion cannot raise when no pident column is selected *)
+Theorem C11_ident_ok_no_pident : forall hs toks, nodup_str (map hname hs) = true -> length toks = length hs ->
+  mem (bs "pident"%bs) (map hname hs) = false -> ident_ok (row_attrs hs toks) = true.
+Proof. exact ident_ok_no_pident. Qed.
+Print Assumptions C11_ident_ok_no_pident.
+
+(* user-chosen columns given by outfmt= (BLAST 6/7/10, MMseqs2 0/4; header lines of the file are ignored) *)
+Theorem C11_read_outfmt_hits : forall d c o ftype hs pre names post free hits,
+  headers_from false d (split_ws o) = Ok hs -> sel_ok d hs = true -> hits_ok d free hs hits = true ->
+  forallb (skip_line d false false) pre = true -> forallb (skip_line d false false) post = true ->
+  (match d with Mmseqs => forallb (names_ok c) names | _ => match names with [] => true | _ => false end end) = true ->
+  forallb (row_ok d c) (sel_rows d free hs hits) = true ->
+  exists fs, snd (read_lines d (Some c) (Some o) ftype
+                    (lines_keep (unlines (pre ++ map (names_line c) names ++ map (join c) (sel_rows d free hs hits) ++ post)))) = Ok fs /\
+             map loc_meta fs = map spec_loc_meta hits.
+Proof. exact read_outfmt_hits. Qed.
+Print Assumptions C11_read_outfmt_hits.
+
+(* user-chosen columns announced by the '# Fields:' line of BLAST outfmt 7 *)
+Theorem C11_read_blast7_sel_hits : forall c ftype hs pre mid post free hits,
+  hs <> [] -> forallb long_ok (map hlong hs) = true -> headers_from true Blast (map hlong hs) = Ok hs ->
+  sel_ok Blast hs = true -> hits_ok Blast free hs hits = true ->
+  forallb (skip_line Blast true true) pre = true -> forallb (skip_line Blast true true) mid = true ->
+  forallb (skip_line Blast true true) post = true -> forallb (row_ok Blast c) (sel_rows Blast free hs hits) = true ->
+  exists fs, snd (read_content Blast (Some c) None ftype false
+                    (unlines (pre ++ [fields_line hs] ++ mid ++ map (join c) (sel_rows Blast free hs hits) ++ post))) = Ok fs /\
+             map loc_meta fs = map spec_loc_meta hits.
+Proof. exact read_blast7_sel_hits. Qed.
+Print Assumptions C11_read_blast7_sel_hits.
+
+(* user-chosen columns announced by the name row of MMseqs2 fmtmode 4 *)
+Theorem C11_read_mmseqs4_sel_hits : forall c ftype hs pre post free hits,
+  names_ok c hs = true -> headers_from false Mmseqs (map hname hs) = Ok hs ->
+  sel_ok Mmseqs hs = true -> hits_ok Mmseqs free hs hits = true ->
+  forallb (skip_line Mmseqs true true) pre = true -> forallb (skip_line Mmseqs true true) post = true ->
+  forallb (row_ok Mmseqs c) (sel_rows Mmseqs free hs hits) = true ->
+  exists fs, snd (read_content Mmseqs (Some c) None ftype false
+                    (unlines (pre ++ [names_line c hs] ++ map (join c) (sel_rows Mmseqs free hs hits) ++ post))) = Ok fs /\
+             map loc_meta fs = map spec_loc_meta hits.
+Proof. exact read_mmseqs4_sel_hits. Qed.
+Print Assumptions C11_read_mmseqs4_sel_hits.
+
+(* Infernal tblout with any of its column tables; by C11_selection_tables the hypotheses on hs hold for n = 18 (fmt 1),
+   29 (fmt 2), 20 (fmt 3) and 27 (fmt 2, old) *)
+Theorem C11_read_infernal_hits : forall sep outfmt ftype n hs ruler pre post rows free hits,
+  ruler_ok n ruler = true -> infernal_headers n = Ok hs -> sel_ok Infernal hs = true -> hits_ok Infernal free hs hits = true ->
+  forallb (skip_line Infernal true true) pre = true -> forallb (skip_line Infernal true false) post = true ->
+  forallb (wsrow_ok n) rows = true -> map wsrow_toks rows = sel_rows Infernal free hs hits ->
+  exists fs, snd (read_content Infernal sep outfmt ftype false (unlines (pre ++ [ruler] ++ map wsrow_line rows ++ post))) = Ok fs /\
+             map loc_meta fs = map spec_loc_meta hits.
+Proof. exact read_infernal_hits. Qed.
+Print Assumptions C11_read_infernal_hits.
+
+Theorem C11_selection_tables :
+  forallb (fun n => match infernal_headers n with
+                    | Ok hs => sel_ok Infernal hs && negb (mem (bs "pident"%bs) (map hname hs))
+                    | Err _ => false end) [18; 29; 20; 27]%nat = true /\
+  sel_ok Blast (default_hs (bs "blast"%bs) Blast) = true /\ sel_ok Mmseqs (default_hs (bs "mmseqs"%bs) Mmseqs) = true /\
+  forallb cols_distinct dialects = true.
+Proof. exact selection_tables. Qed.
+Print Assumptions C11_selection_tables.
+
+(* BLAST outfmt 7 with several queries: every block is read with the columns of its own '# Fields:' line *)
+Theorem C11_read_blast7_blocks : forall c ftype blocks post, Forall (block_ok c) blocks ->
+  forallb (skip_line Blast true true) post = true ->
+  snd (read_content Blast (Some c) None ftype false (unlines (concat (map (block_lines c) blocks) ++ post))) =
+  blocks_features ftype blocks.
+Proof. exact read_blast7_blocks. Qed.
+Print Assumptions C11_read_blast7_blocks.
+
+(* sep=None (any whitespace) for BLAST and MMseqs2, columns from outfmt= or the defaults *)
+Theorem C11_read_rows_sep_none : forall d outfmt ftype hs rows,
+  (match d with Infernal => false | _ => true end) = true ->
+  (match outfmt with
+   | Some o => headers_from false d (split_ws o)
+   | None => match assoc (dialect_name d) DEFAULT_OUTFMT with Some names => headers_from false d names | None => Err eKey end
+   end) = Ok hs ->
+  forallb (wsrow_simple_ok d) rows = true ->
+  snd (read_content d None outfmt ftype false (unlines (map wsrow_line rows))) = rows_features d ftype hs (map wsrow_toks rows).
+Proof. exact read_rows_sep_none. Qed.
+Print Assumptions C11_read_rows_sep_none.
+
+(* outfmt= with comment and blank lines anywhere between the rows (e.g. a multi-query BLAST 7 file read with outfmt=) *)
+Theorem C11_read_outfmt_segments : forall d c o ftype hs segs post,
+  headers_from false d (split_ws o) = Ok hs -> forallb (seg_ok d c) segs = true ->
+  forallb (skip_line d false false) post = true ->
+  snd (read_lines d (Some c) (Some o) ftype (lines_keep (unlines (concat (map (seg_lines c) segs) ++ post)))) =
+  rows_features d ftype hs (concat (map snd segs)).
+Proof. exact read_outfmt_segments. Qed.
+Print Assumptions C11_read_outfmt_segments.
+
+(* the ftype option: the feature type is the value of that column, or ftype itself when there is no such column *)
+Theorem C11_feature_type : forall d ftype a f, feature_of_attrs d ftype a = Ok f ->
+  assoc (bs "type"%bs) (f_common f) =
+  match ftype with
+  | None => None
+  | Some k => Some (match assoc k a with Some v => v | None => AStr k end)
+  end.
+Proof. exact feature_type. Qed.
+Print Assumptions C11_feature_type.
+
 (* non-vacuity: one minus-strand hit (subject 20..10, query 5..6, e-value 1e-5, bit score 50) as a BLAST outfmt 6 line,
    an MMseqs2 fmtmode 4 file and an Infernal fmt 1 file; all three are inside the domain and read, through the whole
    text-level model, to the interval [9, 20) on the minus strand with the same common metadata *)
@@ -337,3 +451,35 @@ Example C11_witness_render :
     [(39922088, 39923568, bs "-"%bs, Some (AStr (bs "NC_081844.1"%bs)), Some (AStr (bs "exon3-AMCR"%bs)),
       Some (AFlt (FNum false 0 (-1))), Some (AFlt (FNum false 2734 0)))].
 Proof. exact witness_render. Qed.
+
+(* non-vacuity, depth round 2: a user-chosen BLAST selection with a strand column and a user-chosen MMseqs2 selection
+   satisfy the hypotheses of the selection theorems for two real hits; for each of the four Infernal tables the rendered
+   rows (single blanks) satisfy those of C11_read_infernal_hits; a two-query BLAST 7 file with different column lists per
+   block; BLAST and MMseqs2 rows separated by blanks for sep=None *)
+Example C11_witness_selection :
+  headers_from false Blast (split_ws ex2_outfmt) = Ok ex2_hs /\ sel_ok Blast ex2_hs = true /\
+  hits_ok Blast dash ex2_hs ex2_hits = true /\ forallb (row_ok Blast x09) (sel_rows Blast dash ex2_hs ex2_hits) = true /\
+  ex2_hs <> [] /\ forallb long_ok (map hlong ex2_hs) = true /\ headers_from true Blast (map hlong ex2_hs) = Ok ex2_hs /\
+  names_ok x09 ex2_mm_hs = true /\ headers_from false Mmseqs (map hname ex2_mm_hs) = Ok ex2_mm_hs /\
+  sel_ok Mmseqs ex2_mm_hs = true /\ hits_ok Mmseqs dash ex2_mm_hs ex2_hits = true /\
+  forallb (row_ok Mmseqs x09) (sel_rows Mmseqs dash ex2_mm_hs ex2_hits) = true.
+Proof. exact witness_selection. Qed.
+Example C11_witness_infernal_all :
+  forallb (fun n =>
+    ruler_ok n (ruler_of n) &&
+    match infernal_headers n with
+    | Ok hs => sel_ok Infernal hs && hits_ok Infernal dash hs ex2_hits &&
+               forallb (wsrow_ok n) (map mk_wsrow (sel_rows Infernal dash hs ex2_hits)) &&
+               forallb (fun p => strs_eqb (wsrow_toks (mk_wsrow p)) p) (sel_rows Infernal dash hs ex2_hits)
+    | Err _ => false
+    end) [18; 29; 20; 27]%nat = true.
+Proof. exact witness_infernal_all. Qed.
+Example C11_witness_blocks :
+  Forall (block_ok x09) ex2_blocks /\ forallb (skip_line Blast true true) ex_blast_post = true /\
+  (exists fs, blocks_features None ex2_blocks = Ok fs /\ length fs = 4%nat).
+Proof. exact witness_blocks. Qed.
+Example C11_witness_sep_none :
+  forallb (wsrow_simple_ok Blast) (map mk_wsrow ex_blast_rows) = true /\
+  forallb (fun p => strs_eqb (wsrow_toks (mk_wsrow p)) p) ex_blast_rows = true /\
+  forallb (wsrow_simple_ok Mmseqs) (map mk_wsrow ex_mm_rows) = true.
+Proof. exact witness_sep_none. Qed.
